@@ -10,6 +10,7 @@ train(): argument roles, epoch increment, returned model (AST).
 """
 
 import ast
+from fractions import Fraction
 
 from ..paths import enumerate_paths, PathUnsupported
 from ..report import Finding, AnalysisError
@@ -376,7 +377,10 @@ def check_train(ctx):
     stop_obj = ast.unparse(call.func.value)
     for r in rets:
         first = r.value.elts[0] if isinstance(r.value, ast.Tuple) else r.value
-        if ast.unparse(first) != stop_obj + ".best_model":
+        # definite only when the loop's current model (the variable handed to stop()) is returned; any other expression
+        # (a local alias of the kept model, a helper call) is left to the semantic train-loop check, which decides it
+        cur_model = ast.unparse(call.args[0]) if call.args else None
+        if ast.unparse(first) != stop_obj + ".best_model" and ast.unparse(first) == cur_model:
             out.append(Finding("C19", "C19.TRAIN.return", "train", "train returns %s instead of %s.best_model" % (ast.unparse(first), stop_obj), path, r.lineno, None, "returned-model"))
     ctx.ev.instances("C19.TRAIN.stop_calls", 1)
     return out
@@ -387,7 +391,8 @@ def train_loop_worker(job):
     train_step, map_loss_in_batches, the clock, the optimiser) replaced by recording stubs that feed a given loss
     history; the number of epochs trained and the model handed back are compared with the statement, for every
     stopping condition.  Independent of how the loop is written (while / do-while / flag variable)."""
-    repo, kind, param, hist = job
+    repo, kind, param, hist = job[:4]
+    reused = len(job) > 4 and job[4] == "reused"
     it, w = get_interp(repo)
     ml = it.get_module("ginjax.ml")
     tr = it.get_module(TRAIN_MOD)
@@ -433,6 +438,12 @@ def train_loop_worker(job):
         else:
             cond = ml.ValLoss(param[0], param[1], 0)
         vx, vy = ("VX", "VY") if kind == "ValLoss" or param == "with-validation" else (None, None)
+        if reused:
+            # the same condition object was used by an earlier run (another model, an unbeatable loss): whatever train
+            # hands back now must be a model of THIS run
+            low = A.Arr((), [Fraction(-1000)], "float")
+            attempt(lambda: cond.stop("foreign-model-of-an-earlier-run", 1, low, low, 0))
+            cfg["condition_reused_from_an_earlier_run"] = True
         try:
             res = attempt(lambda: ml.train("X", "Y", "map_and_loss", "model@0", Key(0), cond, 2, Optim(), vx, vy))
         except _HistoryExhausted:
@@ -445,6 +456,13 @@ def train_loop_worker(job):
                 ns[k] = v
     if isinstance(res, Rejected) and res is not _HistoryExhausted:
         problems.append(("train-rejected", "train raised: %s" % res.exc, cfg))
+        return dict(cfg=cfg, problems=problems)
+    if reused:
+        got_model = res[0] if isinstance(res, tuple) and res is not _HistoryExhausted else res
+        if res is _HistoryExhausted:
+            problems.append(("train-epochs", "train is still running after %d epochs with a re-used %s(%s) whose best loss cannot be beaten" % (len(hist), kind, param), cfg))
+        elif not (isinstance(got_model, str) and got_model.startswith("model@")):
+            problems.append(("train-model", "train handed back %r, which is neither the model it was given nor one its own steps produced (the %s object had been used by an earlier run)" % (got_model, kind), cfg))
         return dict(cfg=cfg, problems=problems)
     # reference: the statement's state machine over the fed history
     def model_after(e):
@@ -685,6 +703,9 @@ def run(ctx):
             lj.append((ctx.repo, "ValLoss", (patience, delta), H))
     lj.append((ctx.repo, "TrainLoss", (1, 0), [(3, 1), (3, 1), (2, 1), (2, 1), (2, 1), (2, 1)]))
     lj.append((ctx.repo, "ValLoss", (1, 0), [(1, 2), (1, 2), (1, 1), (1, 1), (1, 1), (1, 1)]))
+    for patience in (0, 2):
+        lj.append((ctx.repo, "TrainLoss", (patience, 0), H, "reused"))
+        lj.append((ctx.repo, "ValLoss", (patience, 0), H, "reused"))
     n_loop = 0
     for job, r in ctx.pairs(train_loop_worker, lj):
         n_loop += 1
